@@ -407,6 +407,71 @@ def _has(v, tag):
     return contains(v, lambda t: t[0] == tag)
 
 
+def _items_receivers(node):
+    return [c.func.value.id for c in ast.walk(node) if isinstance(c, ast.Call)
+            and isinstance(c.func, ast.Attribute) and c.func.attr == "items"
+            and isinstance(c.func.value, ast.Name)]
+
+
+def _local_value(fn, name):
+    vals = [st for st in ast.walk(fn) if isinstance(st, ast.Assign)
+            and len(st.targets) == 1 and isinstance(st.targets[0], ast.Name)
+            and st.targets[0].id == name]
+    vals.sort(key=lambda st: st.lineno)
+    return vals[-1].value if vals else None
+
+
+def _tc_roles(fn):
+    """(coefficient list, term table, (base -> exponent) table) of split_term,
+    found from what flows into the returned pair"""
+    rets = [st for st in ast.walk(fn) if isinstance(st, ast.Return)
+            and isinstance(st.value, ast.Tuple) and len(st.value.elts) == 2]
+    if len(rets) != 1:
+        raise AnalysisError("TermCollector.split_term: the returned (term, "
+                            "coefficient) pair was not recognised")
+    term_e, coef_e = rets[0].value.elts
+    coef = [a.id for c in ast.walk(coef_e) if isinstance(c, ast.Call)
+            and ast.unparse(c.func).endswith("flattened_product")
+            for a in c.args if isinstance(a, ast.Name)]
+    if isinstance(term_e, ast.Name):
+        term_e = _local_value(fn, term_e.id)
+    clean = _items_receivers(term_e) if term_e is not None else []
+    if len(coef) != 1 or len(clean) != 1:
+        raise AnalysisError("TermCollector.split_term: coefficient list / term "
+                            "table not recognised")
+    table = None
+    for st in ast.walk(fn):
+        if isinstance(st, ast.For) and any(
+                isinstance(c, ast.Call) and ast.unparse(c.func) ==
+                f"{coef[0]}.append" for c in ast.walk(st)):
+            r = _items_receivers(st.iter)
+            if len(r) == 1:
+                table = r[0]
+    if table is None:
+        raise AnalysisError("TermCollector.split_term: the loop that splits the "
+                            "(base, exponent) table was not recognised")
+    return coef[0], clean[0], table
+
+
+def _tc_sum_table(fn):
+    names = set()
+    for st in ast.walk(fn):
+        if isinstance(st, (ast.ListComp, ast.GeneratorExp)):
+            for g in st.generators:
+                names.update(_items_receivers(g.iter))
+    if len(names) != 1:
+        raise AnalysisError("TermCollector.map_sum: the collected table was not "
+                            "recognised")
+    name = names.pop()
+    for _ in range(4):          # follow plain aliases  a = b
+        v = _local_value(fn, name)
+        if isinstance(v, ast.Name):
+            name = v.id
+        else:
+            break
+    return name
+
+
 def _term_collector(ctx, model):
     tc = model.cls("pymbolic.mapper.collector:TermCollector")
     st = tc.members.get("split_term")
@@ -414,15 +479,18 @@ def _term_collector(ctx, model):
     if st is None or ms is None:
         raise AnalysisError("TermCollector.split_term/map_sum not found")
     loc = tc.module.loc(st.node)
+    # roles of the local containers, from the data flow into the return value
+    coef_name, clean_name, table_name = _tc_roles(st.node)
+    sum_table = _tc_sum_table(ms.node)
     n_coeff = n_term = 0
     ok_coeff = ok_term = ok_once = True
     for ps in summarize(st.node, node_param=False, loop_mode="1"):
         if ps.term != "return":
             continue
         apps = [e for e in ps.events if e.kind == "call"
-                and e.name == "coefficients.append"]
+                and e.name == f"{coef_name}.append"]
         keeps = [e for e in ps.events if e.kind == "itemwrite"
-                 and e.name == "cleaned_base2exp"]
+                 and e.name == clean_name]
         if len(apps) + len(keeps) != 1:
             ok_once = False
         for e in apps:
@@ -453,7 +521,7 @@ def _term_collector(ctx, model):
     ok_acc = False
     for ps in summarize(st.node, node_param=False, loop_mode="1"):
         for e in ps.events:
-            if e.kind == "itemwrite" and e.name == "base2exp":
+            if e.kind == "itemwrite" and e.name == table_name:
                 present = any(pol and isinstance(v, tuple) and v[0] == "compare"
                               and v[1] == ("In",) for _, pol, v in ps.conds)
                 if present and e.value[0] == "binop" and e.value[1] == "Add":
@@ -468,7 +536,7 @@ def _term_collector(ctx, model):
         split = ("call", "self.split_term", (("elem", ("attr", NODE,
                                                        "children")),), ())
         for e in ps.events:
-            if e.kind == "itemwrite" and e.name == "term2coeff":
+            if e.kind == "itemwrite" and e.name == sum_table:
                 key, val = e.args[0], e.value
                 ok_sum = (key == ("index", split, 0) and val[0] == "binop"
                           and val[1] == "Add" and ("index", split, 1) in (
@@ -485,8 +553,8 @@ def _term_collector(ctx, model):
                       and _has(el, "val") and _has(el, "key"))
     ctx.ob("P/TermCollector.map_sum/coefficients-added", ok_sum, loc,
            "coefficients of equal terms are added, starting from 0" if ok_sum
-           else "map_sum does not accumulate term2coeff[term] = "
-           "term2coeff.get(term, 0) + coeff for every child")
+           else f"map_sum does not accumulate {sum_table}[term] = "
+           f"{sum_table}.get(term, 0) + coeff for every child")
     ctx.ob("P/TermCollector.map_sum/every-term-rebuilt", ok_res, loc,
            "the result sums coefficient * term over every collected entry"
            if ok_res else
